@@ -21,6 +21,7 @@ import (
 	"time"
 
 	"github.com/alicebob/miniredis/v2"
+	"github.com/alicebob/miniredis/v2/server"
 	red "github.com/go-redis/redis/v8"
 	"github.com/gotid/god/lib/breaker"
 	"github.com/gotid/god/lib/logx"
@@ -80,8 +81,60 @@ var c12Profiles = []c12Profile{
 func (p c12Profile) mustFail() bool { return p.pass != p.cfgPass }
 func (p c12Profile) cluster() bool  { return p.typ == ClusterType }
 
+// c12Wire records what a server is asked to execute (miniredis pre-hook: command name
+// and argument vector of every dispatched command, Lua redis.call included).
+type c12Wire struct {
+	mu   sync.Mutex
+	cmds [][]string
+}
+
+// connection / topology housekeeping of go-redis: not part of any wrapper command
+var c12WireIgnore = map[string]bool{"AUTH": true, "HELLO": true, "SELECT": true, "CLUSTER": true,
+	"COMMAND": true, "READONLY": true, "CLIENT": true}
+
+func (w *c12Wire) hook(_ *server.Peer, cmd string, args ...string) bool {
+	if c12WireIgnore[cmd] {
+		return false
+	}
+	w.mu.Lock()
+	w.cmds = append(w.cmds, append([]string{cmd}, args...))
+	w.mu.Unlock()
+	return false // never handled here: the server executes the command
+}
+
+func (w *c12Wire) take() [][]string {
+	w.mu.Lock()
+	defer w.mu.Unlock()
+	out := w.cmds
+	w.cmds = nil
+	return out
+}
+
+// c12WireStr renders recorded commands for comparison. HMSET takes its pairs from a
+// Go map on both sides (iteration order is random): pairs are sorted. unordered: the
+// commands were issued concurrently (burst) and are compared as a multiset.
+func c12WireStr(cmds [][]string, unordered bool) string {
+	lines := make([]string, len(cmds))
+	for i, c := range cmds {
+		if c[0] == "HMSET" && len(c) > 2 {
+			var pairs []string
+			for j := 2; j+1 < len(c); j += 2 {
+				pairs = append(pairs, fmt.Sprintf("%q=%q", c[j], c[j+1]))
+			}
+			sort.Strings(pairs)
+			c = append([]string{c[0], c[1]}, pairs...)
+		}
+		lines[i] = fmt.Sprintf("%q", c)
+	}
+	if unordered {
+		sort.Strings(lines)
+	}
+	return strings.Join(lines, " ; ")
+}
+
 type c12Twins struct {
 	prof   c12Profile
+	wa, wb *c12Wire // what A (behind the wrapper) and B (behind raw go-redis) were sent
 	how    int // the constructor that created (and warmed) the shared client of address A
 	mA, mB *miniredis.Miniredis
 	admA   *red.Client // raw client to A: used for housekeeping only (SCRIPT FLUSH)
@@ -138,6 +191,12 @@ const c12Stall = 2 * time.Second
 
 var c12StepStall = c12Stall
 
+type c12NoLog struct{}
+
+func (c12NoLog) Printf(context.Context, string, ...interface{}) {}
+
+func init() { red.SetLogger(c12NoLog{}) } // go-redis warns about every sub-second timeout
+
 // c12Setup returns the twins of the plain profile (node, no password).
 func c12Setup(t *testing.T) *c12Twins { return c12Get(t, 0, 0) }
 
@@ -183,6 +242,9 @@ func c12Renew(t *testing.T, tw *c12Twins) {
 		tw.mA.RequireAuth(p.pass)
 		tw.mB.RequireAuth(p.pass)
 	}
+	tw.wa, tw.wb = &c12Wire{}, &c12Wire{}
+	tw.mA.Server().SetPreHook(tw.wa.hook)
+	tw.mB.Server().SetPreHook(tw.wb.hook)
 	tw.admA = red.NewClient(&red.Options{Addr: tw.mA.Addr(), Password: p.cfgPass})
 	if p.cluster() {
 		tw.rawB = red.NewClusterClient(&red.ClusterOptions{Addrs: []string{tw.mB.Addr()}, Password: p.cfgPass})
@@ -520,6 +582,8 @@ func (e *c12Env) step(s c12Step) string {
 		e.classes["deadctx:"+s.C] = true
 	}
 	ca0, cb0 := e.tw.mA.CommandCount(), e.tw.mB.CommandCount()
+	e.tw.wa.take()
+	e.tw.wb.take()
 	got, gerr := ent.wrap(e, ctx, s)
 	defer e.noteErr(gerr)
 	if gerr == breaker.ErrServiceUnavailable {
@@ -542,6 +606,14 @@ func (e *c12Env) step(s c12Step) string {
 			}
 			return ""
 		}
+		// server-side random commands: the reference side re-synchronises with other
+		// commands, so the wire of the wrapper is compared with the entry's own statement
+		// (not with rejected credentials: go-redis may fail at AUTH and send nothing)
+		if ent.wire != nil && !e.tw.prof.mustFail() {
+			if g, w := c12WireStr(e.tw.wa.take(), false), c12WireStr(ent.wire(s), false); g != w {
+				return fmt.Sprintf("the wrapper sent %s to its server, the corresponding go-redis command is %s", g, w)
+			}
+		}
 		return ent.judge(e, s, got, gerr)
 	}
 	want, werr := ent.ref(e.tw.rawB, refCtx, s)
@@ -553,6 +625,11 @@ func (e *c12Env) step(s c12Step) string {
 		if g, w := c12Canon(got, ent.unordered), c12Canon(want, ent.unordered); g != w {
 			return fmt.Sprintf("wrapper returned %s, go-redis with the same arguments (after the documented conversion) %s", g, w)
 		}
+	}
+	// same command with the same arguments: what the wrapper's server was asked to
+	// execute equals what the corresponding go-redis call asks its server to execute
+	if g, w := c12WireStr(e.tw.wa.take(), false), c12WireStr(e.tw.wb.take(), false); g != w {
+		return fmt.Sprintf("on the wire: the wrapper sent %s, the corresponding go-redis call with the same arguments sends %s", g, w)
 	}
 	// same effect on the server: the wrapper's server processed as many commands as
 	// the server of the corresponding go-redis call
@@ -589,6 +666,8 @@ func (e *c12Env) pipeline(s c12Step) string {
 		e.classes["deadctx:Pipelined"] = true
 	}
 	na0, nb0 := e.tw.mA.CommandCount(), e.tw.mB.CommandCount()
+	e.tw.wa.take()
+	e.tw.wb.take()
 	var gerr error
 	if s.X {
 		gerr = e.r.PipelinedCtx(ctx, queue(ctx, &ca))
@@ -607,6 +686,9 @@ func (e *c12Env) pipeline(s c12Step) string {
 		if a, b := ca[i].String(), cb[i].String(); a != b {
 			return fmt.Sprintf("pipelined command %d: wrapper side %q, go-redis side %q", i, a, b)
 		}
+	}
+	if g, w := c12WireStr(e.tw.wa.take(), false), c12WireStr(e.tw.wb.take(), false); g != w {
+		return fmt.Sprintf("on the wire: the wrapper's Pipelined sent %s, go-redis' Pipelined sends %s", g, w)
 	}
 	if da, db := e.tw.mA.CommandCount()-na0, e.tw.mB.CommandCount()-nb0; da != db && e.countable() {
 		return fmt.Sprintf("the wrapper's Pipelined made its server process %d commands, go-redis' Pipelined %d", da, db)
@@ -645,6 +727,8 @@ func (e *c12Env) burst(s c12Step) string {
 		cd0 = tw.mD.CommandCount()
 	}
 	conns0 := tw.mA.TotalConnectionCount()
+	tw.wa.take()
+	tw.wb.take()
 	ctx, cancel := c12Ctx(c12Step{X: s.X})
 	defer cancel()
 	got := make([]any, k)
@@ -675,6 +759,9 @@ func (e *c12Env) burst(s c12Step) string {
 			return fmt.Sprintf("concurrent call %d of %d: wrapper (%s, %q), go-redis (%s, %q)", i, k,
 				c12Canon(got[i], false), c12ErrStr(gerrs[i]), c12Canon(want, false), c12ErrStr(werr))
 		}
+	}
+	if g, w := c12WireStr(tw.wa.take(), true), c12WireStr(tw.wb.take(), true); g != w {
+		return fmt.Sprintf("%d concurrent commands, on the wire (as multisets): the wrapper's server got %s, the go-redis server %s", k, g, w)
 	}
 	if da, db := tw.mA.CommandCount()-ca0, tw.mB.CommandCount()-cb0; da != db && e.countable() {
 		return fmt.Sprintf("%d concurrent commands: the wrapper's own server processed %d commands, the go-redis server %d", k, da, db)
